@@ -32,6 +32,11 @@ pub struct ChainCfg {
     pub depth: usize,
     pub medium: Medium,
     pub subscriber: u8,
+    /// every downstream client has exactly one handle, which the first handler invocation of the
+    /// hop above takes with it: when that handler is aborted, its outstanding call *and* the last
+    /// handle of its client are dropped together (a handler that owns its downstream connection)
+    #[serde(default)]
+    pub sole_owner: bool,
 }
 
 #[derive(Clone, Debug, Serialize, Deserialize, PartialEq, Eq)]
@@ -254,6 +259,8 @@ pub struct ChainShared {
 pub struct ChainServe {
     hop: usize,
     next: Option<Rc<Channel<u64, u64>>>,
+    /// sole-owner topology: the only handle of the downstream client, taken by the first invocation
+    next_once: Option<Rc<RefCell<Option<Channel<u64, u64>>>>>,
     shared: Rc<ChainShared>,
     hist: Hist,
 }
@@ -319,13 +326,17 @@ impl Serve for ChainServe {
             ),
         });
         let mut g = HandlerGuard { hop: self.hop, body, shared: self.shared.clone(), hist: self.hist.clone(), done: false };
-        let r = match &self.next {
-            Some(ch) => match ch.call(ctx, body).await {
-                Ok(v) => Ok(v + 1),
-                Err(tarpc::client::RpcError::Server(e)) => Err(e),
-                Err(e) => Err(ServerError::new(std::io::ErrorKind::Other, format!("nested:{}", short(&e)))),
-            },
-            None => {
+        let owned: Option<Channel<u64, u64>> = self.next_once.as_ref().and_then(|c| c.borrow_mut().take());
+        let nested = |r: Result<u64, tarpc::client::RpcError>| match r {
+            Ok(v) => Ok(v + 1),
+            Err(tarpc::client::RpcError::Server(e)) => Err(e),
+            Err(e) => Err(ServerError::new(std::io::ErrorKind::Other, format!("nested:{}", short(&e)))),
+        };
+        let r = match (&owned, &self.next) {
+            // `owned` lives in this future: it is dropped with it, after the call future
+            (Some(ch), _) => nested(ch.call(ctx, body).await),
+            (None, Some(ch)) => nested(ch.call(ctx, body).await),
+            (None, None) => {
                 self.shared.leaf_running.borrow_mut().push(body);
                 LeafFut { hop: self.hop, body, shared: self.shared.clone(), hist: self.hist.clone(), done: false }.await
             }
@@ -434,18 +445,25 @@ impl ChainSim {
         let yq: Yq = Rc::new(RefCell::new(VecDeque::new()));
         let depth = cfg.depth.clamp(1, 3);
         let mut clients: Vec<Rc<Channel<u64, u64>>> = vec![];
+        let mut owned: Vec<Option<Rc<RefCell<Option<Channel<u64, u64>>>>>> = vec![];
         let mut server_trs: Vec<STr> = vec![];
         for k in 0..depth {
             let (c, s) = make_link(cfg.medium, k, &hist);
             let tarpc::client::NewClient { client, dispatch } = tarpc::client::new(tarpc::client::Config::default(), c);
             exec.spawn(format!("dispatch{k}"), Box::pin(HopDispatch { hop: k, d: Box::pin(dispatch), hist: hist.clone() }));
-            clients.push(Rc::new(client));
+            if cfg.sole_owner && k > 0 {
+                // no other handle is kept anywhere
+                owned.push(Some(Rc::new(RefCell::new(Some(client)))));
+            } else {
+                owned.push(None);
+                clients.push(Rc::new(client));
+            }
             server_trs.push(s);
         }
         let mut serves = vec![];
         for (k, s) in server_trs.into_iter().enumerate() {
-            let next = clients.get(k + 1).cloned();
-            serves.push(ChainServe { hop: k, next, shared: shared.clone(), hist: hist.clone() });
+            let (next, next_once) = if cfg.sole_owner { (None, owned.get_mut(k + 1).and_then(|o| o.take())) } else { (clients.get(k + 1).cloned(), None) };
+            serves.push(ChainServe { hop: k, next, next_once, shared: shared.clone(), hist: hist.clone() });
             let requests = BaseChannel::with_defaults(s).requests();
             exec.spawn(
                 format!("consumer{k}"),
@@ -498,7 +516,7 @@ impl ChainSim {
                 format!("Panicked: {m}")
             }
         };
-        self.hist.push(Ev::PollEnd { task: t, out: o });
+        self.hist.push(Ev::PollEnd { task: t, out: o, woken: self.exec.is_woken(t) });
         self.after_poll();
         out
     }
